@@ -181,6 +181,11 @@ class WebSession(object):
         except ValueError as error:
             raise ProtocolError('Invalid redirect location.') from error
 
+        if request.url_info.scheme not in ('http', 'https'):
+            # This client can only speak HTTP. Other URLs do not even
+            # have a port to connect to.
+            raise ProtocolError('Redirect to an unsupported URL scheme.')
+
         self._next_request = request
 
         _logger.debug('Updated next redirect request to {0}.'.format(request))
